@@ -67,7 +67,7 @@ class Helper:
     def _classify(self):
         fn = self.fn
         a = fn.args
-        if a.vararg or a.kwarg:
+        if a.vararg:
             return
         if any(norm(d) not in ("staticmethod", "classmethod")
                for d in fn.decorator_list):
@@ -406,10 +406,23 @@ def _bind(h: Helper, call: ast.Call, caller_names, counter):
         return None
     for p, a in zip(params, call.args):
         bound[p] = a
+    extra = []
     for k in call.keywords:
-        if k.arg in bound or k.arg not in params + kwonly:
+        if k.arg in bound:
             return None
+        if k.arg not in params + kwonly:
+            # collected by the helper's `**kwargs` (in call order)
+            if fn.args.kwarg is None:
+                return None
+            extra.append(k)
+            continue
         bound[k.arg] = k.value
+    if fn.args.kwarg is not None:
+        if fn.args.kwarg.arg in bound:
+            return None
+        bound[fn.args.kwarg.arg] = ast.Dict(
+            keys=[ast.Constant(value=k.arg) for k in extra],
+            values=[k.value for k in extra])
     for p in params + kwonly:
         if p not in bound:
             if p in defaults:
@@ -2434,6 +2447,9 @@ def normalize_module(tree: ast.Module, extern=None) -> ast.Module:
                 n2.scalarise_local_tuples(n)
                 n2.split_tuple_assigns(n)
         tree = n2.ItemsLoops().visit(tree)
+        for n in ast.walk(tree):
+            if isinstance(n, ast.FunctionDef):
+                n2.dict_key_loops(n)
         tree = Unroll().visit(tree)
         for n in ast.walk(tree):
             if isinstance(n, ast.FunctionDef):
